@@ -259,6 +259,17 @@ def read_buf_rules(ctx, rep, impl):
                   "a suspension point lies between the transport read completing and advance_mut: cancelling there loses the bytes", b.loc(at["line"]))
 
 
+def _helper_like(d, prefix):
+    """a private helper of the Framed impl, or a helper both implementations share (free function of insim::net, Codec method
+    other than the codec's entry points)"""
+    import re
+    if d.startswith(prefix) and not d.endswith(net.ANCHOR_METHODS):
+        return True
+    if re.match(r"^insim::net::[a-z_0-9]+$", d):
+        return True
+    return d.startswith("insim::net::codec::Codec::") and not d.endswith(net.CODEC_ENTRY)
+
+
 def _param_mutators(ctx, fn, argno, prefix, depth):
     """callees outside MUTATORS_ALLOWED to which parameter `argno` of the helper fn is handed mutably (None: not decidable)"""
     from mirq import strip_refs
@@ -276,7 +287,7 @@ def _param_mutators(ctx, fn, argno, prefix, depth):
             d = callee(t)[0]
             if d in MUTATORS_ALLOWED:
                 continue
-            if d and d.startswith(prefix) and ctx.mir.body(d) is not None:
+            if d and _helper_like(d, prefix) and ctx.mir.body(d) is not None:
                 sub = _param_mutators(ctx, d, ai + 1, prefix, depth + 1)
                 if sub is None:
                     return None
@@ -309,7 +320,7 @@ def mutators(ctx, rep, impl):
                 if mutable:
                     ok = d in MUTATORS_ALLOWED
                     why = "self.buffer is handed mutably to %s; only Codec::decode, chunk_mut and advance_mut may change the receive buffer" % d
-                    if not ok and d and d.startswith(prefix) and ctx.mir.body(d) is not None:
+                    if not ok and d and _helper_like(d, prefix) and ctx.mir.body(d) is not None:
                         # a private helper of the same impl that receives the buffer: it may do with its parameter only what the impl may
                         bad_in_helper = _param_mutators(ctx, d, ai + 1, prefix, 0)
                         ok = bad_in_helper is not None and not bad_in_helper
